@@ -1,6 +1,8 @@
 package main
 
 import (
+	"strings"
+	"runtime/debug"
 	"encoding/hex"
 	"strconv"
 )
@@ -60,4 +62,23 @@ func unhexTok(s string) []byte {
 		panic(err)
 	}
 	return b
+}
+
+// panicSite names the innermost frames of the current panic that lie in the library or the harness
+// (call it inside the deferred function that recovered).
+func panicSite() string {
+	var out []string
+	for _, l := range strings.Split(string(debug.Stack()), "\n") {
+		l = strings.TrimSpace(l)
+		if (strings.Contains(l, "/repo/") || strings.Contains(l, "/harness/")) && strings.Contains(l, ".go:") {
+			if i := strings.Index(l, " +0x"); i > 0 {
+				l = l[:i]
+			}
+			out = append(out, l)
+			if len(out) == 4 {
+				break
+			}
+		}
+	}
+	return strings.Join(out, " < ")
 }
